@@ -6,3 +6,11 @@ Inductive sres (T : Type) : Type :=
 | SRaise.
 Arguments SRet {T} accept ar drew_uniform.
 Arguments SRaise {T}.
+
+(** Actions of a plan rendered from [dump_pickle_to_hdf] ([Gen/SrcH5.v]): the h5py calls it makes on
+    the dataset, in order. *)
+Inductive h5act : Type :=
+| ACreate (resizable : bool)            (* create_dataset(name, shape=(len,), [maxshape=(None,)]) *)
+| ACreateWithData (resizable : bool)    (* create_dataset(name, data=bdata, [maxshape=(None,)]) *)
+| AResize                               (* dset.resize((len,)) *)
+| AAssign.                              (* dset[:] = bdata *)
